@@ -13,7 +13,8 @@ def disagreement_is_failing(req, impl, model):
 RULE = ("requests: generator x (seed | injected 256-bit state) x constructor path (from_seed, urandom::seeded, from_rng via Mock, serde) x "
         "random op history over {u32,u64,f32,f64,fill:n,jump,clone,split} (length 0..60, fill lengths clustered at 0..17 and larger); "
         "SplitMix64 / Wyrand additionally from seeds computed backwards so that the state at a draw is a structured word (zero / all-ones 32-bit halves, single bits, the source's constants xor such words); "
-        "every output and the final state are compared with the Lean model. non-trivial = history contains at least one op; distinct = distinct request line")
+        "every output and the final state are compared with the Lean model. non-trivial = history contains at least one op; distinct = distinct request line"
+        " Since rounds 9/10: typed fills inside histories (zfill:k over zero-sized elements, zrb = random_bytes::<()>, tfill:k over u32 elements); the LE word-stream oracle also on typed fills of 4200..100000 bytes with element sizes 3 and 20.")
 TRUSTED = ["the scalar cores (mix64 / next / jump of SplitMix64; rapid_mum / rapid_mix / wyrand / jump of Wyrand; advance / next_plusplus / next_plus / jump of "
            "Xoshiro256; rng_f32 / rng_f64) are TRANSLATED from the current source on every run (tools/extract_scalar.py -> Generated/Scalar.lean) and the model is proved "
            "equal to the translation (Props/C01T.lean); trusted there: the translator's reading of the Rust subset those functions use (wrapping arithmetic, shifts, "
